@@ -169,23 +169,6 @@ func cmdCheck(prop, tier string, jobs int) int {
 			smtObs = append(smtObs, ob)
 		}
 	}
-	s.solver.Solve(smtObs, tier == "thorough", timeoutFor(tier), jobs)
-	// a solver process that died (result "error") says nothing about the obligation: re-run those with little parallelism
-	for round := 0; round < 2; round++ {
-		var again []*Obligation
-		for _, ob := range smtObs {
-			if ob.Result == "error" && ob.vc != nil {
-				ob.Result, ob.Raw, ob.Backend = "", "", ""
-				again = append(again, ob)
-			}
-		}
-		if len(again) == 0 {
-			break
-		}
-		s.solver.Solve(again, tier == "thorough", timeoutFor(tier), 2)
-	}
-	s.solver.SolveCanaries(pr.canaries, jobs)
-
 	knownBy := map[string]KnownFinding{}
 	type knownRe struct {
 		re *regexp.Regexp
@@ -217,6 +200,37 @@ func cmdCheck(prop, tier string, jobs int) int {
 		}
 		return KnownFinding{}, false
 	}
+	// obligations recorded as known findings are expected to fail: a short time-out keeps the check fast
+	var expectFail []*Obligation
+	{
+		var rest []*Obligation
+		for _, ob := range smtObs {
+			if _, ok := lookupKnown(ob.Name); ok {
+				expectFail = append(expectFail, ob)
+			} else {
+				rest = append(rest, ob)
+			}
+		}
+		smtObs = rest
+	}
+	s.solver.Solve(expectFail, false, 3, jobs)
+	s.solver.Solve(smtObs, tier == "thorough", timeoutFor(tier), jobs)
+	// a solver process that died (result "error") says nothing about the obligation: re-run those with little parallelism
+	for round := 0; round < 2; round++ {
+		var again []*Obligation
+		for _, ob := range smtObs {
+			if ob.Result == "error" && ob.vc != nil {
+				ob.Result, ob.Raw, ob.Backend = "", "", ""
+				again = append(again, ob)
+			}
+		}
+		if len(again) == 0 {
+			break
+		}
+		s.solver.Solve(again, tier == "thorough", timeoutFor(tier), 2)
+	}
+	s.solver.SolveCanaries(pr.canaries, jobs)
+
 	violations := 0
 	exit := 0
 	report := func(ob *Obligation, why string) {
@@ -352,7 +366,11 @@ func writeEvidence(s *Session, pr *propRun, tier string, seed, discharged, viola
 		"seed":        seed,
 		"level":       "proof",
 		"coverage": map[string]any{
-			"obligations":              len(pr.obs),
+			// obligations that are recorded known findings are NOT part of the proof claim (the property does not
+			// hold there); they are counted separately so that discharged == obligations means "everything claimed is proved"
+			"obligations":              len(pr.obs) - len(knownHitSMT(pr, knownHit)),
+			"obligations_generated":    len(pr.obs),
+			"known_finding_obligations": len(knownHitSMT(pr, knownHit)),
 			"discharged":               discharged,
 			"checker_cmd":              fmt.Sprintf("/verif/check %s --tier %s", pr.prop, tier),
 			"trusted_base":             trusted,
@@ -486,6 +504,21 @@ func (s *Session) lemmaObligations(prop string) []*Obligation {
 			ob.Result, ob.Raw, ob.vc = "error", err.Error(), nil
 		}
 		out = append(out, ob)
+	}
+	return out
+}
+
+// knownHitSMT: the known-finding hits that are proof obligations (bounded stand-ins are listed separately).
+func knownHitSMT(pr *propRun, hits []string) []string {
+	in := map[string]bool{}
+	for _, ob := range pr.obs {
+		in[ob.Name] = true
+	}
+	var out []string
+	for _, h := range hits {
+		if in[h] {
+			out = append(out, h)
+		}
 	}
 	return out
 }
